@@ -35,6 +35,13 @@
     renumber <b> | fill <v>                  cell (i, j) := b + 100·i + j | every cell := v
                                              (map_mut_with_index / map_mut ignoring the old value:
                                              re-synchronises a case after a panicking in-place map)
+    … cap=<k>                                on `@ flat/row/column`: the Vec is built with k spare
+                                             capacity (allocation history; ignored by the model)
+    shared <values> via=<kind> row:<p> col:<p> …
+                                             one iterator lent (`by_ref`) to the insertions in turn
+                                             → `<ok|panic> <state> steps=ok,panic,… rest=<left|?> ## len= rest=<left>`
+    accepts <slice> <n>                      → set=<accepted indexes below n>
+    accepts2d rows=<slice> cols=<slice> <R> <C>  → grid=<rows of 0/1>
     eq_after <op …>                          the operation on a clone, then `matrix == clone` and
                                              `clone == matrix` → eq=true|false (read-only)
     scalar                                   → val=<v> | panic         (read-only, &self)
@@ -283,13 +290,13 @@ def parseCtor (toks : List String) : Option (Matrix.Ctor Nat) :=
       else if via = "flat" then some (.fromFlatRowMajor r c (List.range' 1 (r * c)))
       else some (.fromFn r c fun i j => i * c + j + 1)
     | none => none
-  | ["from", rowsS] => (parseRows rowsS).map .fromRows
-  | ["flat", rS, cS, valsS] =>
+  | "from" :: rowsS :: _ => (parseRows rowsS).map .fromRows
+  | "flat" :: rS :: cS :: valsS :: _ =>
     match rS.toNat?, cS.toNat?, parseNatList valsS with
     | some r, some c, some vals => some (.fromFlatRowMajor r c vals)
     | _, _, _ => none
-  | ["row", valsS] => (parseNatList valsS).map .row
-  | ["column", valsS] => (parseNatList valsS).map .column
+  | "row" :: valsS :: _ => (parseNatList valsS).map .row
+  | "column" :: valsS :: _ => (parseNatList valsS).map .column
   | "scalar" :: v :: _ => v.toNat?.map .fromScalar
   | ["empty", rS, cS, vS] =>
     match rS.toNat?, cS.toNat?, vS.toNat? with
@@ -345,6 +352,52 @@ def step (s : State) (toks : List String) : State × String :=
         | .ok none => "err"
         | .panic k => s!"panic ## kind={k}"
       (s, if model = spec then model else s!"{spec} ## MODEL-SPEC-DISAGREE {model}")
+  | "accepts" :: sl :: nS :: _ =>
+    match parseSlice sl.toList, nS.toNat? with
+    | some sl, some n =>
+      let spec := sl.members n
+      let model := (List.range n).filter sl.accepts
+      (s, if spec = model then s!"set={showNats spec}"
+          else s!"set={showNats spec} ## MODEL-SPEC-DISAGREE set={showNats model}")
+    | _, _ => (s, "bad-op")
+  | "accepts2d" :: rest =>
+    match (optArg "rows" rest).bind (parseSlice ·.toList), (optArg "cols" rest).bind (parseSlice ·.toList),
+        rest.reverse with
+    | some rsl, some csl, cS :: rS :: _ =>
+      match rS.toNat?, cS.toNat? with
+      | some r, some c =>
+        let rowSet := rsl.members r
+        let colSet := csl.members c
+        let grid (f : Nat → Nat → Bool) : String :=
+          ";".intercalate ((List.range r).map fun i =>
+            String.ofList ((List.range c).map fun j => if f i j then '1' else '0'))
+        let spec := grid fun i j => rowSet.contains i && colSet.contains j
+        let model := grid fun i j => Slice.accepts2D rsl csl i j
+        (s, if spec = model then s!"grid={spec}" else s!"grid={spec} ## MODEL-SPEC-DISAGREE grid={model}")
+      | _, _ => (s, "bad-op")
+    | _, _, _ => (s, "bad-op")
+  | "shared" :: valsS :: rest =>
+    match s, parseNatList valsS with
+    | none, some _ => (s, "no-matrix")
+    | some st, some vals =>
+      let steps := rest.filterMap fun t =>
+        match t.splitOn ":" with
+        | ["row", p] => p.toNat?.map fun p => (true, p)
+        | ["col", p] => p.toNat?.map fun p => (false, p)
+        | _ => none
+      let sp := Rows.sharedInserts st.rs steps vals
+      let md := Matrix.sharedInserts st.m steps vals
+      let showSteps (l : List Bool) := ",".intercalate (l.map fun b => if b then "panic" else "ok")
+      let anyPanic := sp.2.1.any id
+      let restObs := if anyPanic then "?" else showNats sp.2.2
+      let head := if anyPanic then "panic" else "ok"
+      let spec := s!"{head} {showSpec sp.1} steps={showSteps sp.2.1} rest={restObs}"
+      let model := s!"{head} {showModel md.1} steps={showSteps md.2.1} rest={if anyPanic then "?" else showNats md.2.2}"
+      let st' : St := ⟨md.1, sp.1⟩
+      if spec = model && sp.2.2 = md.2.2 then
+        (some st', s!"{spec} ## len={md.1.data.length} rest={showNats md.2.2}")
+      else (some st', s!"{spec} ## MODEL-SPEC-DISAGREE {model} rest={showNats md.2.2}")
+    | _, none => (s, "bad-op")
   | "eq_after" :: rest =>
     match s, parseXOp rest with
     | none, some _ => (s, "no-matrix")
